@@ -133,7 +133,8 @@ def gen_docs(prop, seed, n, profile="F", replay=None, max_depth=3, features=None
         for i in range(10):
             r = util.rng(seed, prop, "zdef", i)
             props = {"id": {"type": "integer"}}
-            for nm, sch, z in r.sample(zero, r.randrange(2, 6)):
+            chosen = zero if i < 2 else r.sample(zero, r.randrange(2, 6))   # the first two documents carry every member
+            for nm, sch, z in chosen:
                 props[nm] = dict(sch, default=z)
             if i % 3 == 0:
                 # an inline struct member with a whole-type default of its own and required members inside
@@ -142,6 +143,8 @@ def gen_docs(prop, seed, n, profile="F", replay=None, max_depth=3, features=None
                                 "required": ["host"] + (["port"] if r.random() < 0.5 else []),
                                 "default": {"host": "localhost", "port": 8080}}
             req = ["id"] + [n_ for n_ in props if n_ not in ("id", "cfg") and r.random() < 0.3]   # a default does not lift `required`
+            if i == 1:
+                req = ["id"] + [n_ for n_ in props if n_ not in ("id", "cfg")]   # ... every defaulted member required
             doc = {"definitions": {"Zeroed": {"type": "object", "properties": props, "required": req}}}
             if i % 2:
                 doc["definitions"]["Zeroed"]["additionalProperties"] = False
@@ -172,6 +175,18 @@ def gen_docs(prop, seed, n, profile="F", replay=None, max_depth=3, features=None
                 branches = [{"$ref": "#/definitions/Base"}, ov]
                 out.append(("co%02d" % (2 * j + order), {"definitions": {"Base": base, "Closed": {"allOf": branches[::-1] if order else branches}}},
                             ["closing_overlay", "allof_ref", "object"]))
+    if profile in ("F", "C05"):
+        # externally tagged unions that mix closed struct payloads with other payload kinds, in every order
+        closed = {"type": "object", "properties": {"x": {"type": "integer"}, "y": {"type": "string"}}, "required": ["x"],
+                  "additionalProperties": False}
+        vs_ = [("Shape", closed), ("Count", {"type": "integer"}), ("Tags", {"type": "array", "items": {"type": "string"}}),
+               ("Other", dict(closed, properties={"z": {"type": "boolean"}}, required=[]))]
+        for j, order in enumerate([[0, 1, 2], [1, 0, 2], [1, 2, 0], [0, 3, 1], [3, 1, 0]]):
+            branches = [{"type": "object", "required": [vs_[k][0]], "properties": {vs_[k][0]: vs_[k][1]}, "additionalProperties": False}
+                        for k in order]
+            if j % 2:
+                branches.append({"type": "string", "enum": ["Nothing"]})
+            out.append(("ev%02d" % j, {"definitions": {"Ev": {"oneOf": branches}}}, ["oneof_external", "closed", "variant_order"]))
     if profile in ("F", "C05"):
         # OPTIONAL containers that may not be empty when present: omitted must stay omitted
         oc = {"type": "object", "required": ["name"], "properties": {
